@@ -5,6 +5,7 @@ import (
 	"encoding/json"
 	"fmt"
 	"io"
+	"os"
 	"sort"
 	"strings"
 	"sync"
@@ -13,6 +14,7 @@ import (
 	"github.com/biogo/hts/bgzf"
 	"github.com/biogo/hts/bgzf/cache"
 
+	"verif/faultio"
 	"verif/rdr"
 )
 
@@ -50,6 +52,21 @@ type bfsCase struct {
 
 func readerMenu(f *rdr.File, cacheKind string, cacheCap int) []rdr.Op {
 	var m []rdr.Op
+	if cacheKind != "" {
+		// reduced menu for the cache search: every block start, offset 1 of every block with >= 2 bytes
+		for b := 0; b < f.NBlocks(); b++ {
+			m = append(m, rdr.Op{Op: "Seek", Blk: b})
+		}
+		for b := range f.Blocks {
+			if len(f.Blocks[b]) >= 2 {
+				m = append(m, rdr.Op{Op: "Seek", Blk: b, Off: 1})
+			}
+		}
+		m = append(m, rdr.Op{Op: "Read", N: 1}, rdr.Op{Op: "Read", N: 2}, rdr.Op{Op: "Read", N: len(f.Flat) + 1}, rdr.Op{Op: "ReadByte"},
+			rdr.Op{Op: "Blocked", On: true}, rdr.Op{Op: "Blocked", On: false},
+			rdr.Op{Op: "SetCache", Cache: cacheKind, Cap: cacheCap}, rdr.Op{Op: "SetCache"})
+		return m
+	}
 	for b := 0; b < f.NBlocks(); b++ {
 		l := 0
 		if b < len(f.Blocks) {
@@ -96,6 +113,50 @@ func cacheDump(r *bgzf.Reader, c bgzf.Cache) string {
 	return sb.String()
 }
 
+// horizon guards against code that loops forever: every call on the underlying reader and on
+// the cache is counted, and exceeding the horizon panics (reported as a livelock).
+type horizon struct{ n int }
+
+const horizonCalls = 20000
+
+func (h *horizon) tick() {
+	h.n++
+	if h.n > horizonCalls {
+		panic(livelock{})
+	}
+}
+
+type livelock struct{}
+
+func (livelock) Error() string { return "horizon exceeded: operation does not terminate" }
+
+type countingCache struct {
+	bgzf.Cache
+	h *horizon
+}
+
+func (c countingCache) Get(base int64) bgzf.Block { c.h.tick(); return c.Cache.Get(base) }
+func (c countingCache) Put(b bgzf.Block) (bgzf.Block, bool) {
+	c.h.tick()
+	return c.Cache.Put(b)
+}
+func (c countingCache) Peek(base int64) (bool, int64) { c.h.tick(); return c.Cache.Peek(base) }
+
+// aliased reports a cache that indexes a block under an offset other than its base, or that
+// still indexes the Reader's current block: the Reader overwrites its current block with other
+// members, so such a state is about to serve wrong data. The search does not report these
+// internal states; it looks for their observable consequence (see bfsOne).
+func aliased(r *bgzf.Reader, c bgzf.Cache) bool {
+	blocks, keys, _ := cache.VerifDump(c)
+	cur := r.VerifCurrent()
+	for i, b := range blocks {
+		if keys[i] != b.Base() || b == cur {
+			return true
+		}
+	}
+	return false
+}
+
 type bfsStats struct {
 	states, transitions, nontrivial, probes int64
 	maxDepth                                int
@@ -106,10 +167,11 @@ type bfsStats struct {
 func runHistory(c *Ctx, f *rdr.File, cas bfsCase, withCache bool, probe bool) (key string, nontrivial bool) {
 	ops := cas.Ops
 	var key2 string
-	ok := guard(c, "bfs:"+cas.Cache, cas, func() {
-		r, err := bgzf.NewReader(bytes.NewReader(f.Data), 1)
+	ok := guard(c, cas.Cache, cas, func() {
+		hz := &horizon{}
+		r, err := bgzf.NewReader(&faultio.ReadSeeker{Data: f.Data, Hook: hz.tick}, 1)
 		if err != nil {
-			c.Violate("bfs:newreader-error", fmt.Sprintf("NewReader on %s: %v", f.Name, err), cas)
+			c.Violate("newreader-error", fmt.Sprintf("NewReader on %s: %v", f.Name, err), cas)
 			return
 		}
 		defer r.Close()
@@ -125,7 +187,11 @@ func runHistory(c *Ctx, f *rdr.File, cas bfsCase, withCache bool, probe bool) (k
 			var o rdr.Obs
 			if op.Op == "SetCache" {
 				cur = rdr.NewCache(op.Cache, op.Cap)
-				r.SetCache(cur)
+				if cur != nil {
+					r.SetCache(countingCache{cur, hz})
+				} else {
+					r.SetCache(nil)
+				}
 			} else {
 				o = rdr.Do(f, r, op)
 			}
@@ -140,27 +206,38 @@ func runHistory(c *Ctx, f *rdr.File, cas bfsCase, withCache bool, probe bool) (k
 				}
 				kind := cas.Cache
 				if !bytes.Equal(o.Data, po.Data) {
-					c.Violate("bfs:"+kind+":differs-from-uncached:data", fmt.Sprintf("%s on %s: cached reader returned %v, uncached reader %v\nhistory: %s", op, f.Name, o.Data, po.Data, rdr.OpsString(ops)), cas)
+					c.Violate(kind+":differs-from-uncached:data", fmt.Sprintf("%s on %s: cached reader returned %v, uncached reader %v\nhistory: %s", op, f.Name, o.Data, po.Data, rdr.OpsString(ops)), cas)
 					return
 				}
 				if (o.Err == nil) != (po.Err == nil) || (o.Err == io.EOF) != (po.Err == io.EOF) {
-					c.Violate("bfs:"+kind+":differs-from-uncached:error", fmt.Sprintf("%s on %s: cached reader err=%v, uncached err=%v\nhistory: %s", op, f.Name, o.Err, po.Err, rdr.OpsString(ops)), cas)
+					c.Violate(kind+":differs-from-uncached:error", fmt.Sprintf("%s on %s: cached reader err=%v, uncached err=%v\nhistory: %s", op, f.Name, o.Err, po.Err, rdr.OpsString(ops)), cas)
 					return
 				}
 				if o.Chunk != po.Chunk {
-					c.Violate("bfs:"+kind+":differs-from-uncached:lastchunk", fmt.Sprintf("%s on %s: cached reader LastChunk=%v, uncached %v\nhistory: %s", op, f.Name, o.Chunk, po.Chunk, rdr.OpsString(ops)), cas)
+					c.Violate(kind+":differs-from-uncached:lastchunk", fmt.Sprintf("%s on %s: cached reader LastChunk=%v, uncached %v\nhistory: %s", op, f.Name, o.Chunk, po.Chunk, rdr.OpsString(ops)), cas)
 					return
 				}
 				nontrivial = cur != nil
 			} else if last {
 				if sig, msg := rdr.Compare(f, op, e, o); sig != "" {
-					c.Violate("bfs:"+sig+":"+op.Op, fmt.Sprintf("%s\nfile %s, history: %s", msg, f.Name, rdr.OpsString(ops)), cas)
+					c.Violate(sig+":"+op.Op, fmt.Sprintf("%s\nfile %s, history: %s", msg, f.Name, rdr.OpsString(ops)), cas)
 					return
 				}
 				nontrivial = op.Op == "Read" || op.Op == "ReadByte" || op.Op == "Seek"
 			}
 		}
-		key2 = r.VerifDump() + " | " + cacheDump(r, cur)
+		key2 = r.VerifDump()
+		if withCache {
+			// lastChunk is output-only state and both readers are compared on it at every step,
+			// so it need not distinguish states of the differential search
+			if i := strings.Index(key2, " last="); i >= 0 {
+				key2 = key2[:i]
+			}
+		}
+		key2 += " | " + cacheDump(r, cur)
+		if withCache && cur != nil && aliased(r, cur) {
+			key2 = "ALIAS " + key2
+		}
 		if probe {
 			// differential guard for the state key: from any state, reading everything must
 			// give the rest of the flat data (the model knows the position)
@@ -173,7 +250,7 @@ func runHistory(c *Ctx, f *rdr.File, cas bfsCase, withCache bool, probe bool) (k
 			buf := make([]byte, len(f.Flat)+1)
 			n, _ := io.ReadFull(r, buf)
 			if !bytes.Equal(buf[:n], e.Data) {
-				c.Violate("bfs:probe:rest-of-data:"+cas.Cache, fmt.Sprintf("after history %s on %s, reading on returns %v, the flat copy has %v", rdr.OpsString(ops), f.Name, buf[:n], e.Data), cas)
+				c.Violate("probe:rest-of-data:"+cas.Cache, fmt.Sprintf("after history %s on %s, reading on returns %v, the flat copy has %v", rdr.OpsString(ops), f.Name, buf[:n], e.Data), cas)
 				key2 = ""
 			}
 		}
@@ -194,6 +271,7 @@ func bfsOne(c *Ctx, rf rfile, cacheKind string, cacheCap int, withCache bool, st
 	seen := map[string]bool{rootKey: true}
 	frontier := [][]rdr.Op{nil}
 	var states, transitions, nontriv, probes int64 = 1, 0, 0, 0
+	aliasStates := 0
 	depth := 0
 	for len(frontier) > 0 {
 		depth++
@@ -222,6 +300,23 @@ func bfsOne(c *Ctx, rf rfile, cacheKind string, cacheCap int, withCache bool, st
 		var dups [][]rdr.Op
 		for _, rs := range results {
 			for _, s := range rs {
+				if strings.HasPrefix(s.key, "ALIAS ") {
+					// not expanded as a state of its own: search (depth <= 3, every history) for an
+					// observable difference from the uncached reader, for the first few such states
+					if !seen[s.key] {
+						seen[s.key] = true
+						aliasStates++
+						if aliasStates <= 12 {
+							for _, h := range historiesFrom(s.ops, menu, 3) {
+								if k, _ := runHistory(c, f, mk(h), withCache, false); k == "" {
+									break
+								}
+								transitions++
+							}
+						}
+					}
+					continue
+				}
 				if !seen[s.key] {
 					seen[s.key] = true
 					states++
@@ -245,6 +340,9 @@ func bfsOne(c *Ctx, rf rfile, cacheKind string, cacheCap int, withCache bool, st
 			break
 		}
 	}
+	if aliasStates > 0 {
+		c.AddCount("alias_states_not_expanded", int64(aliasStates))
+	}
 	atomic.AddInt64(&st.states, states)
 	atomic.AddInt64(&st.transitions, transitions)
 	atomic.AddInt64(&st.nontrivial, nontriv)
@@ -252,7 +350,28 @@ func bfsOne(c *Ctx, rf rfile, cacheKind string, cacheCap int, withCache bool, st
 	if depth > st.maxDepth {
 		st.maxDepth = depth
 	}
+	fmt.Fprintf(os.Stderr, "bfs %s cache=%s(%d): states=%d transitions=%d depth=%d\n", f.Name, cacheKind, cacheCap, states, transitions, depth)
 	c.Sample(map[string]interface{}{"file": f.Name, "cache": cacheKind, "cap": cacheCap, "states": states, "transitions": transitions, "depth_of_fixpoint": depth, "menu": len(menu)})
+}
+
+// historiesFrom extends base by every sequence over menu of length 1..n, shortest first.
+func historiesFrom(base []rdr.Op, menu []rdr.Op, n int) [][]rdr.Op {
+	var out [][]rdr.Op
+	level := [][]rdr.Op{base}
+	for l := 0; l < n; l++ {
+		var next [][]rdr.Op
+		for _, h := range level {
+			for _, op := range menu {
+				if op.Op == "SetCache" {
+					continue
+				}
+				next = append(next, append(append([]rdr.Op(nil), h...), op))
+			}
+		}
+		out = append(out, next...)
+		level = next
+	}
+	return out
 }
 
 func readerBFS(c *Ctx, withCache bool) {
